@@ -1,6 +1,7 @@
 package harness
 
 import (
+	"math"
 	"fmt"
 	"strings"
 	"time"
@@ -128,14 +129,10 @@ func refRange(log []string, off, lim int) []string {
 		off = n
 	}
 	start := n - off
-	if lim < 1 {
+	if lim < 1 || lim >= n-start {
 		return log[start:]
 	}
-	end := start + lim
-	if end > n {
-		end = n
-	}
-	return log[start:end]
+	return log[start : start+lim]
 }
 
 func runLogBufSequential(spec *LogBufSpec, buf *pclog.ProcessLogBuffer) {
@@ -147,11 +144,23 @@ func runLogBufSequential(spec *LogBufSpec, buf *pclog.ProcessLogBuffer) {
 			log = append(log, id)
 			simsync.Yield(simsync.SiteHarness)
 		}
-		for off := -3; off <= spec.Grid+3; off++ {
-			for lim := -3; lim <= spec.Grid+3; lim++ {
-				got := buf.GetLogRange(off, lim)
+		// every pair of small numbers around the log's length, and the extremes of int
+		var vals []int
+		for v := -3; v <= spec.Grid+3; v++ {
+			vals = append(vals, v)
+		}
+		vals = append(vals, math.MinInt, math.MinInt+1, math.MinInt32, math.MaxInt32, 1<<40, math.MaxInt-spec.Grid, math.MaxInt-1, math.MaxInt)
+		try := func(off, lim int) (got []string, panicked any) {
+			defer func() { panicked = recover() }()
+			return buf.GetLogRange(off, lim), nil
+		}
+		for _, off := range vals {
+			for _, lim := range vals {
+				got, pv := try(off, lim)
 				want := refRange(log, off, lim)
-				if strings.Join(got, ",") != strings.Join(want, ",") {
+				if pv != nil {
+					simlog.Add(simlog.Event{Kind: "lb.grid.bad", A: fmt.Sprintf("n=%d offset=%d limit=%d", spec.Grid, off, lim), B: fmt.Sprintf("panic: %v", pv)})
+				} else if strings.Join(got, ",") != strings.Join(want, ",") {
 					simlog.Add(simlog.Event{Kind: "lb.grid.bad", A: fmt.Sprintf("n=%d offset=%d limit=%d", spec.Grid, off, lim), B: fmt.Sprintf("got %v want %v", got, want)})
 				}
 				simlog.Add(simlog.Event{Kind: "lb.grid.ok", N: 1})
